@@ -13,6 +13,9 @@ CHECKS = {
  "C12": dict(technique="Coq proof: relational first-fit spec over canonical free lists (maximal runs), invariant incl. accounting over all traces, certified checker (ff_stepb_sound) evaluated by vm_compute on observed transitions",
              text="Theorems (closed): for every trace of the first-fit spec: lowest aligned fit among free-or-new bytes, growth only when nothing fits, monotone capacity, free never errs and frees exactly the region, coalescing corollary, progress, accounting |free|+live+lost=cap. Observed transitions of the real allocator must satisfy the certified checker; a rejected transition is itself the failing history.",
              ref="DESIGN.md §7 C12"),
+ "C13": dict(technique="Coq proof: byte-list model of every CPU buffer primitive with frame/read-back/aliasing/independence theorems + certified history checker evaluated by vm_compute on observed buffers",
+             text="Theorems (closed): every updating primitive changes exactly [off,off+len) to the source bytes and nothing else (capacity included); extraction returns exactly the requested bytes; copies are independent values, views read what was last written; grow keeps every old byte. Both CPU buffer kinds are run on exhaustive small scopes and random histories; the whole buffer and returned bytes after every call are compared with the model inside Coq.",
+             ref="DESIGN.md §7 C13", note=TB + " numpy's dtype conversion is numpy's (expected converted bytes computed with numpy)."),
 }
 NOT_YET = {}
 def main():
@@ -36,6 +39,6 @@ def main():
              engines=[dict(name="coq-proof+correspondence", path="/verif/check", serves_properties=sorted(CHECKS),
                            kind_free_text="Rocq/Coq 8.16.1 theorems about hand-written Gallina models/specs; certified checkers evaluated with vm_compute on behaviour observed from /repo on every run")],
              checks=checks, not_applicable=na,
-             notes="See DESIGN.md. fix: commits in /repo: ff928cc (D9), 5b3a49c (D15). KNOWN_FINDINGS.json lists fixed/known defects.")
+             notes="See DESIGN.md. fix: commits in /repo are listed in KNOWN_FINDINGS.json (status fixed). KNOWN_FINDINGS.json lists fixed/known defects.")
     json.dump(m, open(os.path.join(V, "MANIFEST.json"), "w"), indent=1)
 main()
